@@ -362,6 +362,9 @@ class step_validate_row:
 
 
 def _create_pre(self, creator, ghost):
+    """Global invariants of the stored graph on entry (every operation is entered with them and proved to re-establish
+    them): well-formedness (I1, foreign keys, root facts, creator kinds), an UNDECLARED file is detached; scoping: the
+    creator, if any, is an existing attached step."""
     db = db_of(self)
     pre = [well_formed(db), forall_nodes(I3, db)]
     if creator is not None:
